@@ -6,6 +6,7 @@ import (
 	"math"
 	"os"
 	"sort"
+	"sync"
 	"testing"
 
 	badger "github.com/dgraph-io/badger/v4"
@@ -49,6 +50,7 @@ type c26Case struct {
 	// LowVersions (managed incremental mode): streamed versions are odd numbers counted from zero,
 	// the pre-existing data sits at even versions - a stream may back-fill versions BELOW existing ones
 	LowVersions bool `json:"lowversions,omitempty"`
+	Parallel    bool `json:"parallel,omitempty"` // two goroutines call Write concurrently (disjoint stream sets)
 }
 
 func genC26(t *rapid.T) c26Case {
@@ -139,6 +141,7 @@ func genC26(t *rapid.T) c26Case {
 		}
 		c.Streams = append(c.Streams, st)
 	}
+	c.Parallel = ns >= 2 && rapid.IntRange(0, 2).Draw(t, "parallel") == 0
 	// schedule: cut every stream into chunks and interleave them into Write calls
 	pos := make([]int, ns)
 	doneSent := make([]bool, ns)
@@ -376,9 +379,22 @@ func runC26(c c26Case, rec *evid.Rec) (core.Result, error) {
 			}
 		}
 		pos := make([]int, len(c.Streams))
-		for wi, w := range c.Writes {
-			buf := z.NewBuffer(1<<12, "verif.c26")
+		// build the buffers first (deterministic model updates), then hand them to Write: from one
+		// goroutine in generated order, or (Parallel) from two goroutines, one for the streams with an
+		// even and one for those with an odd index (Write is documented as safe for concurrent callers;
+		// each stream's chunks keep their order)
+		var lanes [2][]*z.Buffer
+		for _, w := range c.Writes {
+			var bufs [2]*z.Buffer
 			for _, ch := range w {
+				lane := 0
+				if c.Parallel {
+					lane = ch.Stream % 2
+				}
+				if bufs[lane] == nil {
+					bufs[lane] = z.NewBuffer(1<<12, "verif.c26")
+				}
+				buf := bufs[lane]
 				st := c.Streams[ch.Stream]
 				for i := 0; i < ch.N && pos[ch.Stream] < len(st); i++ {
 					seq++
@@ -401,11 +417,36 @@ func runC26(c c26Case, rec *evid.Rec) (core.Result, error) {
 					badger.KVToBuffer(&pb.KV{StreamId: uint32(ch.Stream + 1), StreamDone: true}, buf)
 				}
 			}
-			err := sw.Write(buf)
-			buf.Release()
+			for lane, b := range bufs {
+				if b != nil {
+					lanes[lane] = append(lanes[lane], b)
+				}
+			}
+		}
+		var werr [2]error
+		var wwg sync.WaitGroup
+		for lane := range lanes {
+			wwg.Add(1)
+			go func(lane int) {
+				defer wwg.Done()
+				for wi, b := range lanes[lane] {
+					if werr[lane] == nil {
+						if err := sw.Write(b); err != nil {
+							werr[lane] = fmt.Errorf("round %d: StreamWriter.Write #%d (lane %d): %v", round, wi, lane, err)
+						}
+					}
+					b.Release()
+				}
+			}(lane)
+			if !c.Parallel {
+				wwg.Wait() // single caller: strictly one Write after the other
+			}
+		}
+		wwg.Wait()
+		for _, err := range werr {
 			if err != nil {
 				sw.Cancel()
-				return res, fmt.Errorf("round %d: StreamWriter.Write #%d: %v", round, wi, err)
+				return res, err
 			}
 		}
 		if err := sw.Flush(); err != nil {
@@ -468,6 +509,7 @@ func runC26(c c26Case, rec *evid.Rec) (core.Result, error) {
 	cls(c.Incremental, "incremental")
 	cls(c.Incremental && len(c.Pre) > 0, "incremental_on_existing_data")
 	cls(c.Rounds > 1, "two_incremental_rounds")
+	cls(c.Parallel, "concurrent_write_callers")
 	cls(c.LowVersions && len(c.Pre) > 0, "stream_backfills_below_existing_versions")
 	cls(len(c.Streams) > 1, "several_streams")
 	cls(managed, "managed")
@@ -485,6 +527,6 @@ func runC26(c c26Case, rec *evid.Rec) (core.Result, error) {
 
 func TestC26_StreamWriter(t *testing.T) {
 	core.Run(t, "C26", "streamwriter",
-		"rapid-generated stream sets: the sorted key pool is cut into 1-4 contiguous non-overlapping streams; per key 1-3 versions (descending), values around the value threshold and far above it, delete markers, user meta, TTLs; every stream is chunked and the chunks of different streams are interleaved into StreamWriter.Write calls, done markers on/off; Prepare on an empty database or PrepareIncremental on generated pre-existing data (flushed; left in L0, compacted once or twice), one or two incremental rounds with rising versions, or (managed mode) a stream that back-fills versions below the existing ones; managed/normal, in-memory, encryption, compression. Oracle (reference model): after Flush and again after Close + re-open the all-versions view and every Get equal exactly the streamed entries plus the pre-existing data, the level structure validates, and (normal mode) the next commit is visible and gets a version above everything stored. Non-trivial = >=2 entries over >=2 Write calls.",
+		"rapid-generated stream sets: the sorted key pool is cut into 1-4 contiguous non-overlapping streams; per key 1-3 versions (descending), values around the value threshold and far above it, delete markers, user meta, TTLs; every stream is chunked and the chunks of different streams are interleaved into StreamWriter.Write calls (from one goroutine, or from two goroutines writing disjoint stream sets concurrently), done markers on/off; Prepare on an empty database or PrepareIncremental on generated pre-existing data (flushed; left in L0, compacted once or twice), one or two incremental rounds with rising versions, or (managed mode) a stream that back-fills versions below the existing ones; managed/normal, in-memory, encryption, compression. Oracle (reference model): after Flush and again after Close + re-open the all-versions view and every Get equal exactly the streamed entries plus the pre-existing data, the level structure validates, and (normal mode) the next commit is visible and gets a version above everything stored. Non-trivial = >=2 entries over >=2 Write calls.",
 		genC26, runC26)
 }
